@@ -513,6 +513,9 @@ func (c *checker) walk(n graphql.Type, kind string) {
 	case *graphql.Enum:
 		var vs []*graphql.EnumValueDefinition
 		c.safe(name+".Values()", func() { vs = t.Values() })
+		if c.broken(t) {
+			return
+		}
 		if len(vs) == 0 {
 			c.empty("values:enum", name)
 		}
